@@ -73,20 +73,28 @@ def check_c06(prop, tier, seed):
 
 
 def generic_small(prop, tier, seed, mc_module, mc_consts, mc_invs, driver, driver_args, tv_module, tv_consts,
-                  verdict_names, rule, assumptions, level="model_checking", nontrivial_key=None, tv_shards=8):
+                  verdict_names, rule, assumptions, level="model_checking", nontrivial_key=None, tv_shards=8,
+                  mc_extra="", mc_negative=None):
     """MC of a small spec + a driver on the real code + trace validation of its records."""
     t0 = time.time()
     wd = vlib.workdir("%s-%s" % (prop, tier))
     vlib.build_harness()
     mc = None
     if mc_module:
-        cfg = vlib.tlc_cfg("Spec", mc_consts, mc_invs)
+        cfg = vlib.tlc_cfg("Spec", mc_consts, mc_invs, extra=mc_extra)
         mc = vlib.run_tlc(mc_module, cfg, wd, "mc", workers=8, timeout=1500)
         log("[%s] MC %s %s: %d states, %d distinct, %.1fs%s" % (
             prop, mc_module, mc_consts, mc["states"], mc["distinct"], mc["wall"],
             " VIOLATED " + mc["violated"] if mc["violated"] else ""))
         if mc["error"] or mc["violated"] or mc["distinct"] == 0:
             raise ToolError("model checking of %s failed: %s" % (mc_module, mc["out"]))
+        if mc_negative:
+            # vacuity guard: the historic defect switched back on in the model must violate the named invariant
+            nconsts, ninv = mc_negative
+            neg = vlib.run_tlc(mc_module, vlib.tlc_cfg("Spec", nconsts, mc_invs), wd, "mcneg", workers=2, timeout=600)
+            log("[%s] MC %s %s (historic variant): %s" % (prop, mc_module, nconsts, neg["violated"] or "no violation"))
+            if neg["violated"] != ninv:
+                raise ToolError("the historic variant %s should violate %s, TLC reported %s" % (nconsts, ninv, neg["violated"]))
     recs = os.path.join(wd, "recs.ndjson")
     pr = vlib.run_bin(driver, driver_args + ["--seed", seed, "--out", recs], timeout=3000)
     if pr.returncode != 0:
@@ -270,11 +278,13 @@ def check_c11(prop, tier, seed):
     q = tier == "quick"
     return generic_small(
         prop, tier, seed,
-        "Codec", {"MAX": 4, "K": 8}, ["OkMeansValidated", "MemoryBounded", "RoundTrip"],
+        "Codec", {"MAX": 4 if q else 7, "K": 8, "VariantId": '"cur"'},
+        ["TypeOK", "NoOverrun", "OkMeansValidated", "MemoryBounded", "RoundTrip", "BombRejected", "V1Exact"],
         "codec_cases", ["--machines", 200 if q else 2000, "--bomb-mib", 512 if q else 2048],
         "CodecTrace", {}, {"C11"},
         rule="round trips of generated valid machines (random, 1..10^4 states up to the size limit, extreme numeric fields); hostile strings: truncations, bit flips, replacements, wrong versions, non-ASCII, structure-level corruption of the bincode bytes, random strings, zlib streams inflating to 2 MiB - 1 GiB, for both parsers; non-trivial = round trips",
         assumptions=["byte-level fidelity of bincode / zlib / base64 is not modelled: the spec contributes the pipeline contract, the memory budget and the judgement of every record (DESIGN.md section 8)",
                      "peak heap is measured by a counting global allocator inside the driver; the budget is 64 MiB + 2 x input length",
                      "machines whose bincode encoding exceeds MAX_DECOMPRESSED_SIZE are outside the statement and skipped (counted)"],
-        level="exploration", nontrivial_key="round_trips")
+        level="exploration", nontrivial_key="round_trips", mc_extra="PROPERTY Terminates",
+        mc_negative=({"MAX": 4, "K": 8, "VariantId": '"F9"'}, "RoundTrip"))
